@@ -38,6 +38,11 @@ interface Shelf
 	sig placed(item: Item)
 	sig stock(items: Vec<Item>)
 end
+
+interface Notes
+	fn store(name: str, data: any) -> str
+	fn title(n: int32) -> str
+end
 `
 
 const c05ObjScenario = `package objs
@@ -50,6 +55,7 @@ import (
 	"github.com/lugu/qiloop/bus"
 	"github.com/lugu/qiloop/bus/net"
 	"github.com/lugu/qiloop/bus/util"
+	"github.com/lugu/qiloop/type/value"
 )
 
 type itemImpl struct{ weight int32 }
@@ -230,6 +236,55 @@ func TestObjects(t *testing.T) {
 }
 `
 
+const c05ObjScenario3 = `
+type notesImpl struct{ last string }
+
+func (n *notesImpl) Activate(activation bus.Activation, helper NotesSignalHelper) error { return nil }
+func (n *notesImpl) OnTerminate()                                                      {}
+func (n *notesImpl) Store(name string, data value.Value) (string, error) {
+	n.last = name
+	return "stored " + name, nil
+}
+func (n *notesImpl) Title(k int32) (string, error) { return fmt.Sprintf("title number %d", k), nil }
+
+// a call whose arguments cannot be encoded (a value that is nil, behind a string that can) returns an error and
+// sends nothing; the calls made after it arrive with their own arguments
+func TestFailedEncode(t *testing.T) {
+	listener, err := net.Listen(util.NewUnixAddr())
+	if err != nil {
+		t.Fatal(err)
+	}
+	srv, err := bus.StandAloneServer(listener, bus.Yes{}, bus.PrivateNamespace())
+	if err != nil {
+		t.Fatal(err)
+	}
+	defer srv.Terminate()
+	impl := &notesImpl{}
+	if _, err = srv.NewService("Notes", NotesObject(impl)); err != nil {
+		t.Fatal(err)
+	}
+	session := srv.Session()
+	defer session.Terminate()
+	notes, err := Notes(session)
+	if err != nil {
+		t.Fatal(err)
+	}
+	for i := int32(0); i < 20; i++ {
+		if _, err := notes.Store("incomplete entry", nil); err == nil {
+			t.Fatalf("round %d: a call with a nil value is accepted", i)
+		}
+		got, err := notes.Title(i)
+		if err != nil || got != fmt.Sprintf("title number %d", i) {
+			t.Fatalf("round %d: the call after a call that could not be encoded: %q, %v", i, got, err)
+		}
+		got, err = notes.Store(fmt.Sprintf("entry %d", i), value.Int(i))
+		if err != nil || got != fmt.Sprintf("stored entry %d", i) {
+			t.Fatalf("round %d: the second call after a call that could not be encoded: %q, %v", i, got, err)
+		}
+	}
+}
+`
+
 const c05ObjScenario2 = `
 // lists of objects as an argument and as a result of a method
 func TestObjectLists(t *testing.T) {
@@ -303,10 +358,13 @@ func execGenObjects(a []string) string {
 		os.WriteFile(filepath.Join(dir, "go.sum"), sum, 0o644)
 	}
 	os.WriteFile(filepath.Join(dir, "objs", "gen.go"), gen.Bytes(), 0o644)
-	os.WriteFile(filepath.Join(dir, "objs", "scenario_test.go"), []byte(c05ObjScenario+c05ObjScenario2), 0o644)
+	os.WriteFile(filepath.Join(dir, "objs", "scenario_test.go"), []byte(c05ObjScenario+c05ObjScenario2+c05ObjScenario3), 0o644)
 	test := "TestObjects$"
 	if len(a) > 0 && a[0] == "2" {
 		test = "TestObjectLists$"
+	}
+	if len(a) > 0 && a[0] == "3" {
+		test = "TestFailedEncode$"
 	}
 	goenv := append(os.Environ(), "GOFLAGS=-mod=mod", "GOPROXY=off", "GOSUMDB=off", "GOTOOLCHAIN=local", "CGO_ENABLED=0")
 	var out []byte
